@@ -150,9 +150,158 @@ def hostile_half(ctx, verdict, cov, quick, only=None):
     return v
 
 
+# ------------------------------------------------------------------------------ hostile sequences (consensus)
+SEQ_FILES = ["zz_verif_c17core_test.go", "zz_verif_c17_test.go", "zz_verif_c17seq_test.go"]
+
+
+def msg_name(m):
+    k = m["k"]
+    if k == "NRS":
+        return "NRS(h%d,r%d,s%d)" % (m["h"], m["r"], m["s"])
+    if k == "Proposal":
+        return "Proposal(r%d,pol%d,%s,%d)" % (m["r"], m["pol"], m["hdr"], m["size"])
+    if k == "ProposalPOL":
+        return "ProposalPOL(pol%d,%d)" % (m["pol"], m["size"])
+    if k == "NVB":
+        return "NVB(r%d,%s,%d,%s)" % (m["r"], m["hdr"], m["size"], "commit" if m["commit"] else "nocommit")
+    if k in ("HasVote", "Vote"):
+        return "%s(r%d,t%d,i%d)" % (k, m["r"], m["t"], m["idx"])
+    if k == "Maj23":
+        return "Maj23(r%d,t%d)" % (m["r"], m["t"])
+    return "VSBits(r%d,t%d,%s,%d)" % (m["r"], m["t"], m["hdr"], m["size"])
+
+
+def seq_name(msgs):
+    return ">".join(msg_name(m) for m in msgs)
+
+
+MSG_FIELDS = ("k", "h", "r", "s", "pol", "size", "hdr", "commit", "t", "idx")
+
+
+def norm_msg(m):
+    return {k: m[k] for k in MSG_FIELDS}
+
+
+def acts_to_seq(acts):
+    return [norm_msg(to_json(a["m"])) for a in acts if a.get("name") == "Hostile"]
+
+
+def run_seq_shard(ctx, run_resilient, binp, shard, units, settle):
+    inp = {"seqs": units, "settle_ms": settle}
+    outp = os.path.join(ctx.work, "seq-%d.ndjson" % shard)
+    rows, crashes = run_resilient(ctx, binp, "^TestVerifC17Seq$", inp, outp, "seq-%d" % shard, max_crashes=40, timeout=1700)
+    done = sum(1 for r in rows if r.get("ev") == "End")
+    if done + len(crashes) < len(units) and not any(c["unit"] is None for c in crashes):
+        raise Undecided("sequence harness %d executed %d of %d sequences" % (shard, done + len(crashes), len(units)))
+    return rows, crashes
+
+
+def sequence_half(ctx, verdict, cov, quick, only=None):
+    """Hostile-input sequences against the consensus reactor (spec/TMPeerGossip*.tla): TLC explores every
+    sequence of <= MaxMsgs messages with the gossip goroutines interleaved; the targeted sequences, the
+    counterexample of the weakened spec and simulated behaviours are fed to the real reactor."""
+    from props.c17 import run_resilient
+    from vlib.tlaparse import parse_behaviour_text
+    d = os.path.join(core.VERIF, "harness", "inpkg", "consensus")
+    if not all(os.path.exists(os.path.join(d, f)) for f in SEQ_FILES):
+        return None
+    mm = 3 if quick else 4
+    cfg = core.cfg_variant(ctx, "C17_gossip.cfg", "C17_gossip_run.cfg", {"MaxMsgs": mm})
+    rg = ctx.tlc("C17_gossip", cfg, must_pass=True, timeout=1200, label="gossip", workers=4)
+    dump = os.path.join(ctx.work, "gossip_targeted")
+    rt = ctx.tlc("C17_gossip_targeted", "C17_gossip_targeted.cfg", dump=[dump], must_pass=True, timeout=600,
+                 label="gossip_targeted", workers=2)
+    targeted = [[norm_msg(m) for m in to_json(s["sq"])] for s in core.read_state_dump(dump + ".dump")]
+    # non-vacuity + attack schedule: the weakened spec is refuted with a sequence; that sequence is replayed
+    rw = ctx.tlc("C17_gossip", "C17_weak_BitArrayOpsAssumeEqualSize.cfg", timeout=600, label="weak_BitArrayOpsAssumeEqualSize", workers=2)
+    hit = [v for v in rw.violations if v["name"] == "NeverCrashes"]
+    if not hit:
+        raise Undecided("vacuity: Weak_BitArrayOpsAssumeEqualSize does not violate NeverCrashes (%s)" % rw.errors[:2])
+    attack = acts_to_seq([st["act"] for _h, st in hit[0]["trace"] if "act" in st])
+    rwt = ctx.tlc("C17_gossip_targeted", "C17_weak_BitArrayOpsAssumeEqualSize_targeted.cfg", timeout=300,
+                  label="weak_BitArrayOpsAssumeEqualSize_targeted", workers=2)
+    if not any(v["name"] == "TargetedNoCrash" for v in rwt.violations):
+        raise Undecided("vacuity: the targeted sequences do not refute Weak_BitArrayOpsAssumeEqualSize")
+    cov["nonvacuity"]["Weak_BitArrayOpsAssumeEqualSize refuted by TLC (NeverCrashes, TargetedNoCrash)"] = True
+    # simulated behaviours of the longer model
+    scfg = core.cfg_variant(ctx, "C17_gossip.cfg", "C17_gossip_sim.cfg", {"MaxMsgs": 6}, drop_view=True)
+    nsim = 120 if quick else 1500
+    pref = os.path.join(ctx.work, "gsim")
+    rs = ctx.tlc("C17_gossip", scfg, simulate="file=%s,num=%d" % (pref, nsim), depth=14, seed=ctx.seed, workers=1,
+                 timeout=600, label="gossip_sim")
+    if rs.errors or rs.violations or rs.timed_out:
+        raise Undecided("gossip simulation failed: %s" % (rs.errors or rs.violations)[:2])
+    sims = []
+    dd = os.path.dirname(pref)
+    for fn in sorted(os.listdir(dd)):
+        if fn.startswith("gsim_"):
+            with open(os.path.join(dd, fn)) as f:
+                beh = parse_behaviour_text("\n".join(ln for ln in f.read().splitlines() if not ln.startswith("\\*")))
+            os.remove(os.path.join(dd, fn))
+            sq = acts_to_seq([s["act"] for _h, s in beh[1:] if "act" in s])
+            if sq:
+                sims.append(sq)
+    units, seen = [], set()
+    for src, lst in (("weak_BitArrayOpsAssumeEqualSize", [attack]), ("targeted", targeted), ("sim", sims)):
+        for sq in lst:
+            nm = seq_name(sq)
+            if not sq or nm in seen or (only is not None and nm not in only):
+                continue
+            seen.add(nm)
+            units.append({"name": nm, "src": src, "msgs": sq})
+    if not units:
+        raise Undecided("no sequences to execute")
+    binp = ctx.go_build_test("consensus", SEQ_FILES, name="c17_consensus_seq")
+    nsh = max(1, min(4, len(units) // 50 + 1))
+    shards_ = [[] for _ in range(nsh)]
+    for i, u in enumerate(units):
+        sh = shards_[i % nsh]
+        u = dict(u)
+        u["unit"] = len(sh)
+        sh.append(u)
+    rows_all, crashes_all = [], []
+    with ThreadPoolExecutor(max_workers=nsh) as ex:
+        for rows, crashes in ex.map(lambda k: run_seq_shard(ctx, run_resilient, binp, k, shards_[k], 15), range(nsh)):
+            rows_all += rows
+            crashes_all += crashes
+    v = core.validate_traces(ctx, "TMPeerGossipTrace", rows_all, label="sequences", max_events=3000)
+    for x in v["viol"]:
+        first = x["prefix"][0] if x["prefix"] else {}
+        sig = {"half": "reactor-seq", "inv": x["inv"], "class": x["class"], "case": x["case"]}
+        verdict.add(sig, {"failing_step": x["row"], "prefix": x["prefix"], "sequence": first.get("msgs"),
+                          "tlc": {"inv": x["inv"], "class": x["class"], "case": x["case"]}, "crashes": crashes_all[:10]})
+    distinct = set()
+    for r in rows_all:
+        if r.get("ev") == "Msg":
+            distinct.add(json.dumps([r["m"], r["stopped"], r["barrier"], r["panic_caught"]], sort_keys=True))
+    cov["states"] += rg.distinct + rt.distinct
+    cov["transitions"] += rg.generated + rt.generated + rs.generated
+    cov["traces_validated_against_impl"] += v["runs"]
+    cov["evaluations"] += len(rows_all)
+    cov["distinct_nontrivial"] += len(distinct)
+    drift_by = {}
+    for dr in v["drift"]:
+        drift_by[dr["what"]] = drift_by.get(dr["what"], 0) + 1
+    cov["sequences"] = {
+        "model": "every sequence of <= %d hostile messages (alphabet of %s) interleaved with the gossip goroutines" % (mm, "TMPeerGossip!HostileMsgs"),
+        "targeted_sequences": len(targeted), "simulated_sequences": len(sims), "attack_sequence": seq_name(attack),
+        "sequences_executed": len(units), "messages_sent": sum(1 for r in rows_all if r.get("ev") == "Msg" and r["sent"]),
+        "process_crashes": crashes_all, "conformance_drift_count": len(v["drift"]), "conformance_drift_kinds": drift_by,
+        "conformance_drift": [{"what": dr["what"], "step": core.abridge(dr["row"])} for dr in v["drift"][:10]],
+    }
+    cov["samples"].append(core.abridge([r for r in rows_all if r.get("ev") in ("Reset", "Msg", "End")][:6], 6))
+    return v
+
+
 def replay(ctx, rep):
     from props.c17 import new_cov
     case = rep["signature"]["case"]
+    if rep["signature"].get("half") == "reactor-seq":
+        verdict = core.Verdict(ctx)
+        v = sequence_half(ctx, verdict, new_cov(), True, only={case})
+        for x in v["viol"]:
+            log("replay: %s/%s on sequence %s" % (x["inv"], x["class"], x["case"]))
+        return verdict.finish()
     verdict = core.Verdict(ctx)
     v = hostile_half(ctx, verdict, new_cov(), False, only={case})
     for x in v["viol"]:
